@@ -45,7 +45,7 @@ ASSUMPTIONS = [
     "hostile absolute paths and traversals stay inside the scratch area (the harness must not touch the real file system)",
     "allowed resource directories: <repo>/pdfminer/cmap and the directory named by CMAP_PATH",
 ]
-PROBES = ["site:encoding-name", "site:cmapname-stream", "site:usecmap", "site:registry-ordering", "site:image-name", "site:image-attr", "name:dotdot", "name:absolute", "name:nul", "name:long", "name:existing-file", "name:separator", "name:sibling-prefix", "state:outdir-absent", "state:outdir-nested", "state:preexisting-image-name", "second export in the same process", "image exported", "bait file present at traversal target"]
+PROBES = ["site:encoding-name", "site:cmapname-stream", "site:usecmap", "site:registry-ordering", "site:image-name", "site:image-attr", "name:dotdot", "name:absolute", "name:nul", "name:long", "name:existing-file", "name:separator", "name:sibling-prefix", "name:lookalike", "state:outdir-absent", "state:outdir-nested", "state:preexisting-image-name", "second export in the same process", "image exported", "bait file present at traversal target"]
 TIERS = {
     "quick": {"batches": 16, "runs": 500, "budget_s": 45},
     "thorough": {"batches": 128, "runs": 500, "budget_s": 900},
@@ -84,7 +84,24 @@ def _guard(scratch_top, path):
 
 
 def hostile_name(t, ctx, fsroot, depth_hint):
-    k = t.draw(11, "name.kind")
+    k = t.draw(12, "name.kind")
+    if k == 11:
+        # spellings that only become a traversal after some normalisation or decoding step (compatibility forms of
+        # '.' and '/', percent escapes, overlong UTF-8): harmless as long as the name is used as it is
+        ctx.probe("name:lookalike")
+        up = t.rint(1, depth_hint + 1, "name.up3")
+        fw = "\uff0e\uff0e\uff0f".encode("utf-8")  # FULLWIDTH FULL STOP x2, FULLWIDTH SOLIDUS (NFKC: '../')
+        return t.pick(
+            [
+                fw * up + "bait\uff0fevil".encode("utf-8"),
+                "\u2025\uff0f".encode("utf-8") * up + b"bait" + "\uff0f".encode("utf-8") + b"evil",  # TWO DOT LEADER (NFKC: '..')
+                "\u2024\u2024\u2215".encode("utf-8") * up + b"bait/evil",
+                b"%2e%2e%2f" * up + b"bait%2fevil",
+                b"\xc0\xae\xc0\xae\xc0\xaf" * up + b"bait\xc0\xafevil",
+                "\uff0f".encode("utf-8") + fsroot.encode().lstrip(b"/").replace(b"/", "\uff0f".encode("utf-8")) + "\uff0fbait\uff0fevil".encode("utf-8"),
+            ],
+            "name.lookalike",
+        )
     if k == 10:
         # a sibling directory whose path merely *begins* like an allowed directory (defeats string-prefix checks)
         ctx.probe("name:sibling-prefix")
